@@ -1,15 +1,25 @@
 // xlate/c15 — tie A of property C15: transcribes facts of the Go source into Lean data.
 //
-//   util/hash/HashUtil.go     the 256-entry table; the loop bodies of Hash, Hash64, Hash64v2, Hash64V2
-//   util/hexa32/Hexa32.go     the digits alphabet, PLUS/MINUS, the special text of MinInt64, radix,
-//                             limit and multmin of to_long
-//   util/hll/MurmurHash.go    the multiplier / shift / seed constants
-//   util/bitutil/BitUtil.go   every function body (straight-line integer code)
+// The selected declarations are type-checked with go/types (standard library importer "source",
+// nothing to fetch), so every operator node is emitted with the operand type Go assigned to it and
+// every constant expression with the value Go computed for it.  Output (Golib/Gen/C15.lean):
 //
-// It never judges: a shape it cannot transcribe becomes `.unknown "…"`, on which the evaluator
-// of Golib/Hash/GoExpr.lean returns none, so the obligation that mentions it fails.
+//   util/hash/HashUtil.go      the 256-entry table; loop body and after-loop block of Hash, Hash64,
+//                              Hash64v2, Hash64V2; initial register values; ToInt, ToLong;
+//                              which function the string wrappers call
+//   util/stringutil            the loop body of HashCode
+//   util/hexa32/Hexa32.go      digits, PLUS/MINUS, the MinInt64 text; to_str (init, condition, post,
+//                              stored digit inside and after the loop); to_long (prelude, loop body,
+//                              final return) and its findc closure
+//   util/hll/MurmurHash.go     murmurHash / murmurHashLong: prelude, loop body, after-loop block;
+//                              MurmurHashLong whole; the default seeds
+//   util/bitutil/BitUtil.go    every function body
+//   util/iputil/IPUtil.go      the shape of ToString / ToBytes (indices, separators, counts, mask)
 //
-// usage: c15 -repo DIR -out FILE
+// It never judges: a construct it cannot transcribe becomes `.unknown k`, which no hand-written
+// model contains, so the obligation that mentions it fails.
+//
+// usage: c15 -repo DIR -out FILE [-ns NAMESPACE]
 package main
 
 import (
@@ -17,46 +27,123 @@ import (
 	"fmt"
 	"go/ast"
 	"go/constant"
+	"go/importer"
 	"go/parser"
+	"go/printer"
 	"go/token"
+	"go/types"
 	"math/big"
 	"os"
 	"path/filepath"
+	"regexp"
+	"sort"
 	"strconv"
 	"strings"
 )
 
 var fset = token.NewFileSet()
 
-func parse(repo, rel string) *ast.File {
+func die(f string, a ...interface{}) {
+	fmt.Fprintf(os.Stderr, "xlate/c15: "+f+"\n", a...)
+	os.Exit(1)
+}
+
+// ---------------------------------------------------------------- parsing + type checking
+
+type unit struct {
+	file *ast.File
+	info *types.Info
+}
+
+// load parses a file and type-checks the named top-level declarations (all if names is nil)
+// together with the standard-library imports they use.
+func load(repo, rel string, names []string) *unit {
 	f, err := parser.ParseFile(fset, filepath.Join(repo, rel), nil, 0)
 	if err != nil {
-		fmt.Fprintln(os.Stderr, "xlate/c15:", err)
-		os.Exit(1)
+		die("%v", err)
 	}
-	return f
+	sub := f
+	want := map[string]bool{}
+	for _, n := range names {
+		want[n] = true
+	}
+	var keep []ast.Decl
+	for _, d := range f.Decls {
+		switch x := d.(type) {
+		case *ast.FuncDecl:
+			if names == nil || (x.Recv == nil && want[x.Name.Name]) {
+				keep = append(keep, d)
+			}
+		case *ast.GenDecl:
+			if x.Tok == token.IMPORT {
+				continue
+			}
+			if names == nil {
+				keep = append(keep, d)
+				continue
+			}
+			for _, sp := range x.Specs {
+				if vs, ok := sp.(*ast.ValueSpec); ok {
+					for _, n := range vs.Names {
+						if want[n.Name] {
+							keep = append(keep, d)
+						}
+					}
+				}
+			}
+		}
+	}
+	// imports actually used by the kept declarations (standard library only)
+	used := map[string]bool{}
+	for _, d := range keep {
+		ast.Inspect(d, func(n ast.Node) bool {
+			if se, ok := n.(*ast.SelectorExpr); ok {
+				if id, ok := se.X.(*ast.Ident); ok {
+					used[id.Name] = true
+				}
+			}
+			return true
+		})
+	}
+	var imps []ast.Spec
+	for _, is := range f.Imports {
+		path, _ := strconv.Unquote(is.Path.Value)
+		base := path[strings.LastIndex(path, "/")+1:]
+		if is.Name != nil {
+			base = is.Name.Name
+		}
+		if used[base] && !strings.Contains(strings.SplitN(path, "/", 2)[0], ".") {
+			imps = append(imps, is)
+		}
+	}
+	var decls []ast.Decl
+	if len(imps) > 0 {
+		decls = append(decls, &ast.GenDecl{Tok: token.IMPORT, TokPos: f.Package, Lparen: f.Package, Rparen: f.Package, Specs: imps})
+	}
+	sub.Decls = append(decls, keep...)
+	var keptImports []*ast.ImportSpec
+	for _, is := range imps {
+		keptImports = append(keptImports, is.(*ast.ImportSpec))
+	}
+	sub.Imports = keptImports
+	info := &types.Info{Types: map[ast.Expr]types.TypeAndValue{}, Uses: map[*ast.Ident]types.Object{}, Defs: map[*ast.Ident]types.Object{}}
+	conf := types.Config{Importer: importer.ForCompiler(fset, "source", nil), Error: func(error) {}}
+	conf.Check(f.Name.Name, fset, []*ast.File{sub}, info) // errors leave gaps in info → .unknown
+	return &unit{file: sub, info: info}
 }
+
+func (u *unit) fn(name string) *ast.FuncDecl {
+	for _, d := range u.file.Decls {
+		if fd, ok := d.(*ast.FuncDecl); ok && fd.Recv == nil && fd.Name.Name == name {
+			return fd
+		}
+	}
+	return nil
+}
+
+// ---------------------------------------------------------------- Lean text helpers
 
 func leanStr(s string) string { return strconv.Quote(s) }
-
-// identifiers are numbered in order of first appearance (one table for the whole output)
-var (
-	symIDs   = map[string]int{}
-	symNames []string
-)
-
-func sym(name string) string {
-	id, ok := symIDs[name]
-	if !ok {
-		id = len(symNames)
-		symIDs[name] = id
-		symNames = append(symNames, name)
-	}
-	return strconv.Itoa(id)
-}
-
-var opNames = map[token.Token]string{token.SHL: ".shl", token.SHR: ".shr", token.AND: ".band", token.OR: ".bor", token.XOR: ".bxor",
-	token.ADD: ".add", token.SUB: ".sub", token.MUL: ".mul", token.AND_NOT: ".andNot"}
 
 func leanInt(v *big.Int) string {
 	if v.Sign() < 0 {
@@ -65,229 +152,614 @@ func leanInt(v *big.Int) string {
 	return v.String()
 }
 
-var tyNames = map[string]string{"int8": ".i8", "int16": ".i16", "int32": ".i32", "int64": ".i64",
-	"uint8": ".u8", "byte": ".u8", "uint16": ".u16", "uint32": ".u32", "uint64": ".u64", "int": ".i64", "uint": ".u64"}
-
-func tyOf(e ast.Expr) (string, bool) {
-	if id, ok := e.(*ast.Ident); ok {
-		t, ok := tyNames[id.Name]
-		return t, ok
+func tyOf(t types.Type) (string, bool) {
+	if t == nil {
+		return "", false
+	}
+	b, ok := t.Underlying().(*types.Basic)
+	if !ok {
+		return "", false
+	}
+	switch b.Kind() {
+	case types.Int8:
+		return ".i8", true
+	case types.Int16:
+		return ".i16", true
+	case types.Int32:
+		return ".i32", true
+	case types.Int64, types.Int:
+		return ".i64", true
+	case types.Uint8:
+		return ".u8", true
+	case types.Uint16:
+		return ".u16", true
+	case types.Uint32:
+		return ".u32", true
+	case types.Uint64, types.Uint:
+		return ".u64", true
 	}
 	return "", false
 }
 
-func litValue(b *ast.BasicLit) (*big.Int, bool) {
-	switch b.Kind {
-	case token.INT, token.CHAR:
-		c := constant.MakeFromLiteral(b.Value, b.Kind, 0)
-		if c.Kind() == constant.Int {
-			if v, ok := new(big.Int).SetString(c.ExactString(), 10); ok {
-				return v, true
-			}
-		}
-	}
-	return nil, false
+// ---------------------------------------------------------------- symbols
+
+// identifiers of one function are numbered: parameters first, then in order of first appearance;
+// package-level arrays have fixed numbers ≥ 1000.
+type symtab struct {
+	ids   map[string]int
+	names []string
 }
 
-// consts: package-level / local named constants the expressions may mention (math.MaxInt64 …)
-var mathConsts = map[string]string{"MaxInt64": "9223372036854775807", "MinInt64": "-9223372036854775808",
-	"MaxInt32": "2147483647", "MinInt32": "-2147483648"}
+var globalArrays = map[string]int{"table": 1000, "digits": 1001}
 
-func expr(e ast.Expr) string {
-	switch x := e.(type) {
-	case *ast.ParenExpr:
-		return expr(x.X)
-	case *ast.Ident:
-		return "(.var " + sym(x.Name) + ")"
-	case *ast.BasicLit:
-		if v, ok := litValue(x); ok {
+func newSymtab() *symtab { return &symtab{ids: map[string]int{}} }
+func (s *symtab) id(name string) int {
+	if g, ok := globalArrays[name]; ok {
+		return g
+	}
+	if i, ok := s.ids[name]; ok {
+		return i
+	}
+	i := len(s.names)
+	s.ids[name] = i
+	s.names = append(s.names, name)
+	return i
+}
+
+var unknownCount = 0
+
+func unknown(kind string, n ast.Node) string {
+	unknownCount++
+	fmt.Fprintf(os.Stderr, "xlate/c15: cannot transcribe %T at %s\n", n, fset.Position(n.Pos()))
+	return fmt.Sprintf("(%s.unknown %d)", kind, unknownCount)
+}
+
+// ---------------------------------------------------------------- expressions
+
+type tr struct {
+	u  *unit
+	st *symtab
+}
+
+var opNames = map[token.Token]string{token.SHL: ".shl", token.SHR: ".shr", token.AND: ".band", token.OR: ".bor", token.XOR: ".bxor",
+	token.ADD: ".add", token.SUB: ".sub", token.MUL: ".mul", token.QUO: ".quo", token.REM: ".rem", token.AND_NOT: ".andNot"}
+
+var assignOps = map[token.Token]token.Token{token.XOR_ASSIGN: token.XOR, token.AND_ASSIGN: token.AND, token.OR_ASSIGN: token.OR,
+	token.ADD_ASSIGN: token.ADD, token.MUL_ASSIGN: token.MUL, token.SUB_ASSIGN: token.SUB, token.SHL_ASSIGN: token.SHL,
+	token.SHR_ASSIGN: token.SHR, token.AND_NOT_ASSIGN: token.AND_NOT, token.QUO_ASSIGN: token.QUO, token.REM_ASSIGN: token.REM}
+
+func constInt(tv types.TypeAndValue) (*big.Int, bool) {
+	if tv.Value == nil {
+		return nil, false
+	}
+	v := constant.ToInt(tv.Value)
+	if v.Kind() != constant.Int {
+		return nil, false
+	}
+	b, ok := new(big.Int).SetString(v.ExactString(), 10)
+	return b, ok
+}
+
+func (t *tr) expr(e ast.Expr) string {
+	if tv, ok := t.u.info.Types[e]; ok {
+		if v, ok := constInt(tv); ok {
 			return "(.lit " + leanInt(v) + ")"
 		}
-	case *ast.SelectorExpr:
-		if p, ok := x.X.(*ast.Ident); ok && p.Name == "math" {
-			if v, ok := mathConsts[x.Sel.Name]; ok {
-				b, _ := new(big.Int).SetString(v, 10)
-				return "(.lit " + leanInt(b) + ")"
-			}
+	}
+	switch x := e.(type) {
+	case *ast.ParenExpr:
+		return t.expr(x.X)
+	case *ast.Ident:
+		if _, ok := tyOf(t.u.info.TypeOf(x)); ok {
+			return fmt.Sprintf("(.var %d)", t.st.id(x.Name))
 		}
 	case *ast.BinaryExpr:
 		if op, ok := opNames[x.Op]; ok {
-			return "(.bin " + op + " " + expr(x.X) + " " + expr(x.Y) + ")"
+			if ty, ok := tyOf(t.u.info.TypeOf(x)); ok {
+				return "(.bin " + op + " " + ty + " " + t.expr(x.X) + " " + t.expr(x.Y) + ")"
+			}
 		}
 	case *ast.UnaryExpr:
-		switch x.Op {
-		case token.SUB:
-			return "(.neg " + expr(x.X) + ")"
-		case token.XOR:
-			return "(.not " + expr(x.X) + ")"
-		case token.ADD:
-			return expr(x.X)
+		if ty, ok := tyOf(t.u.info.TypeOf(x)); ok {
+			switch x.Op {
+			case token.SUB:
+				return "(.neg " + ty + " " + t.expr(x.X) + ")"
+			case token.XOR:
+				return "(.not " + ty + " " + t.expr(x.X) + ")"
+			case token.ADD:
+				return t.expr(x.X)
+			}
 		}
 	case *ast.CallExpr:
 		if len(x.Args) == 1 {
-			fun := x.Fun
-			if p, ok := fun.(*ast.ParenExpr); ok {
-				fun = p.X
-			}
-			if t, ok := tyOf(fun); ok {
-				return "(.conv " + t + " " + expr(x.Args[0]) + ")"
+			if tv, ok := t.u.info.Types[x.Fun]; ok && tv.IsType() {
+				if ty, ok := tyOf(tv.Type); ok {
+					if _, ok := tyOf(t.u.info.TypeOf(x.Args[0])); ok {
+						return "(.conv " + ty + " " + t.expr(x.Args[0]) + ")"
+					}
+				}
 			}
 		}
 	case *ast.IndexExpr:
 		if a, ok := x.X.(*ast.Ident); ok {
-			return "(.idx " + sym(a.Name) + " " + expr(x.Index) + ")"
+			if _, ok := tyOf(t.u.info.TypeOf(x)); ok { // element is an integer
+				return fmt.Sprintf("(.idx %d %s)", t.st.id(a.Name), t.expr(x.Index))
+			}
 		}
 	}
-	return "(.unknown " + leanStr(fmt.Sprintf("%T at %s", e, fset.Position(e.Pos()))) + ")"
+	return unknown("GoSem.Expr", e)
 }
 
-func stmt(s ast.Stmt, skipIndexOf string) (string, bool) {
-	unknown := func() (string, bool) {
-		return ".unknown " + leanStr(fmt.Sprintf("%T at %s", s, fset.Position(s.Pos()))), true
+func (t *tr) cond(e ast.Expr) string {
+	switch x := e.(type) {
+	case *ast.ParenExpr:
+		return t.cond(x.X)
+	case *ast.BinaryExpr:
+		intOperands := func() bool {
+			_, ok1 := tyOf(t.u.info.TypeOf(x.X))
+			_, ok2 := tyOf(t.u.info.TypeOf(x.Y))
+			return ok1 && ok2
+		}
+		switch x.Op {
+		case token.LAND:
+			return "(.and " + t.cond(x.X) + " " + t.cond(x.Y) + ")"
+		case token.LOR:
+			return "(.or " + t.cond(x.X) + " " + t.cond(x.Y) + ")"
+		case token.LSS, token.LEQ, token.GTR, token.GEQ, token.EQL, token.NEQ:
+			if !intOperands() {
+				break
+			}
+			a, b := t.expr(x.X), t.expr(x.Y)
+			switch x.Op {
+			case token.LSS:
+				return "(.lt " + a + " " + b + ")"
+			case token.LEQ:
+				return "(.le " + a + " " + b + ")"
+			case token.GTR:
+				return "(.lt " + b + " " + a + ")"
+			case token.GEQ:
+				return "(.le " + b + " " + a + ")"
+			case token.EQL:
+				return "(.eq " + a + " " + b + ")"
+			case token.NEQ:
+				return "(.ne " + a + " " + b + ")"
+			}
+		}
 	}
-	switch x := s.(type) {
-	case *ast.ReturnStmt:
-		if len(x.Results) == 1 {
-			return ".ret " + expr(x.Results[0]), true
+	return unknown("GoSem.Cond", e)
+}
+
+// ---------------------------------------------------------------- statements
+
+func isLenCall(e ast.Expr) bool {
+	if c, ok := e.(*ast.CallExpr); ok {
+		if id, ok := c.Fun.(*ast.Ident); ok && id.Name == "len" {
+			return true
 		}
-	case *ast.AssignStmt:
-		if len(x.Lhs) == 1 && len(x.Rhs) == 1 {
-			id, ok := x.Lhs[0].(*ast.Ident)
-			if !ok {
-				return unknown()
-			}
-			// `b := bytes[i]`: the loop input, supplied by the obligation
-			if ix, ok := x.Rhs[0].(*ast.IndexExpr); ok && skipIndexOf != "" {
-				if a, ok := ix.X.(*ast.Ident); ok && a.Name == skipIndexOf {
-					return "", false
-				}
-			}
-			switch x.Tok {
-			case token.DEFINE:
-				return ".decl " + sym(id.Name) + " .untyped " + expr(x.Rhs[0]), true
-			case token.ASSIGN:
-				return ".assign " + sym(id.Name) + " " + expr(x.Rhs[0]), true
-			default:
-				if op, ok := opNames[assignOps[x.Tok]]; ok {
-					return ".assign " + sym(id.Name) + " (.bin " + op + " (.var " + sym(id.Name) + ") " + expr(x.Rhs[0]) + ")", true
-				}
-			}
-		}
-	case *ast.DeclStmt:
-		if gd, ok := x.Decl.(*ast.GenDecl); ok && gd.Tok == token.VAR && len(gd.Specs) == 1 {
-			vs := gd.Specs[0].(*ast.ValueSpec)
-			if len(vs.Names) == 1 && len(vs.Values) == 1 {
-				t := ".untyped"
-				if vs.Type != nil {
-					var ok bool
-					if t, ok = tyOf(vs.Type); !ok {
-						return unknown()
+	}
+	return false
+}
+
+func assignedNames(list []ast.Stmt) map[string]bool {
+	out := map[string]bool{}
+	for _, s := range list {
+		ast.Inspect(s, func(n ast.Node) bool {
+			switch x := n.(type) {
+			case *ast.AssignStmt:
+				for _, l := range x.Lhs {
+					if id, ok := l.(*ast.Ident); ok {
+						out[id.Name] = true
 					}
 				}
-				return ".decl " + sym(vs.Names[0].Name) + " " + t + " " + expr(vs.Values[0]), true
+			case *ast.IncDecStmt:
+				if id, ok := x.X.(*ast.Ident); ok {
+					out[id.Name] = true
+				}
 			}
-		}
-	}
-	return unknown()
-}
-
-var assignOps = map[token.Token]token.Token{token.XOR_ASSIGN: token.XOR, token.AND_ASSIGN: token.AND, token.OR_ASSIGN: token.OR,
-	token.ADD_ASSIGN: token.ADD, token.MUL_ASSIGN: token.MUL, token.SUB_ASSIGN: token.SUB, token.SHL_ASSIGN: token.SHL,
-	token.SHR_ASSIGN: token.SHR, token.AND_NOT_ASSIGN: token.AND_NOT}
-
-func stmts(list []ast.Stmt, skipIndexOf string) string {
-	var out []string
-	for _, s := range list {
-		if t, keep := stmt(s, skipIndexOf); keep {
-			out = append(out, "    "+t)
-		}
-	}
-	return "[\n" + strings.Join(out, ",\n") + "]"
-}
-
-func findFunc(f *ast.File, name string) *ast.FuncDecl {
-	for _, d := range f.Decls {
-		if fd, ok := d.(*ast.FuncDecl); ok && fd.Recv == nil && fd.Name.Name == name {
-			return fd
-		}
-	}
-	return nil
-}
-
-func emitFn(w *strings.Builder, f *ast.File, name string) {
-	fd := findFunc(f, name)
-	fmt.Fprintf(w, "def fn_%s : GoX.Fn :=\n", name)
-	if fd == nil || fd.Type.Results == nil || len(fd.Type.Results.List) != 1 {
-		fmt.Fprintf(w, "  { params := [], result := .untyped, body := [.unknown %s] }\n\n", leanStr("function "+name+" not found"))
-		return
-	}
-	var ps []string
-	for _, fl := range fd.Type.Params.List {
-		t, ok := tyOf(fl.Type)
-		if !ok {
-			t = ".untyped"
-		}
-		for _, n := range fl.Names {
-			ps = append(ps, "("+sym(n.Name)+", "+t+")")
-		}
-	}
-	rt, ok := tyOf(fd.Type.Results.List[0].Type)
-	if !ok {
-		rt = ".untyped"
-	}
-	fmt.Fprintf(w, "  { params := [%s], result := %s, body := %s }\n\n", strings.Join(ps, ", "), rt, stmts(fd.Body.List, ""))
-}
-
-// loop body of the first `for` statement of a function; also reports the names of the slice
-// parameter and of the per-iteration byte variable (`b := bytes[i]`)
-func emitLoop(w *strings.Builder, f *ast.File, name string) {
-	fd := findFunc(f, name)
-	fmt.Fprintf(w, "def loop_%s : List GoX.Stmt := ", name)
-	var loop *ast.ForStmt
-	if fd != nil {
-		ast.Inspect(fd.Body, func(n ast.Node) bool {
-			if fs, ok := n.(*ast.ForStmt); ok && loop == nil {
-				loop = fs
-			}
-			return loop == nil
+			return true
 		})
 	}
-	if loop == nil || len(fd.Type.Params.List) != 1 || len(fd.Type.Params.List[0].Names) != 1 {
-		fmt.Fprintf(w, "[.unknown %s]\n\n", leanStr("loop of "+name+" not found"))
+	return out
+}
+
+func mentions(e ast.Node, names map[string]bool) bool {
+	hit := false
+	ast.Inspect(e, func(n ast.Node) bool {
+		if id, ok := n.(*ast.Ident); ok && names[id.Name] {
+			hit = true
+		}
+		return true
+	})
+	return hit
+}
+
+// stmts transcribes a statement list; guard is the (Lean text of the) condition of the enclosing
+// `if`s / `case`s, "" at top level.  skip decides statements left out (documented at the call sites).
+func (t *tr) stmts(list []ast.Stmt, guard string, skip func(ast.Stmt) bool) []string {
+	var out []string
+	set := func(name string, rhs string) {
+		if guard == "" {
+			out = append(out, fmt.Sprintf(".set %d %s", t.st.id(name), rhs))
+		} else {
+			out = append(out, fmt.Sprintf(".setIf %s %d %s", guard, t.st.id(name), rhs))
+		}
+	}
+	and := func(c string) string {
+		if guard == "" {
+			return c
+		}
+		return "(.and " + guard + " " + c + ")"
+	}
+	for _, s := range list {
+		if skip != nil && skip(s) {
+			continue
+		}
+		switch x := s.(type) {
+		case *ast.ReturnStmt:
+			if len(x.Results) == 1 {
+				if guard == "" {
+					out = append(out, ".ret "+t.expr(x.Results[0]))
+				} else {
+					out = append(out, ".retIf "+guard+" "+t.expr(x.Results[0]))
+				}
+				continue
+			}
+		case *ast.IncDecStmt:
+			if id, ok := x.X.(*ast.Ident); ok {
+				if ty, ok := tyOf(t.u.info.TypeOf(id)); ok {
+					op := ".add"
+					if x.Tok == token.DEC {
+						op = ".sub"
+					}
+					set(id.Name, fmt.Sprintf("(.bin %s %s (.var %d) (.lit 1))", op, ty, t.st.id(id.Name)))
+					continue
+				}
+			}
+		case *ast.AssignStmt:
+			if len(x.Lhs) == 1 && len(x.Rhs) == 1 {
+				if isLenCall(x.Rhs[0]) {
+					continue // `sz := len(bytes)`: the loop bound, supplied by the obligation
+				}
+				switch l := x.Lhs[0].(type) {
+				case *ast.Ident:
+					switch x.Tok {
+					case token.DEFINE, token.ASSIGN:
+						set(l.Name, t.expr(x.Rhs[0]))
+						continue
+					default:
+						if op, ok := opNames[assignOps[x.Tok]]; ok {
+							if ty, ok := tyOf(t.u.info.TypeOf(l)); ok {
+								set(l.Name, fmt.Sprintf("(.bin %s %s (.var %d) %s)", op, ty, t.st.id(l.Name), t.expr(x.Rhs[0])))
+								continue
+							}
+						}
+					}
+				case *ast.IndexExpr:
+					// `buf[pos] = e`: the pseudo-variable "<array>@" holds the element just stored
+					if a, ok := l.X.(*ast.Ident); ok && x.Tok == token.ASSIGN {
+						set(a.Name+"@", t.expr(x.Rhs[0]))
+						continue
+					}
+				}
+			}
+		case *ast.DeclStmt:
+			if gd, ok := x.Decl.(*ast.GenDecl); ok && gd.Tok == token.VAR && len(gd.Specs) == 1 {
+				vs := gd.Specs[0].(*ast.ValueSpec)
+				if len(vs.Names) == 1 && len(vs.Values) == 1 {
+					if _, ok := tyOf(t.u.info.TypeOf(vs.Names[0])); ok {
+						rhs := t.expr(vs.Values[0])
+						// `var x T = e` converts e to T; constants arrive already converted
+						if ty, ok := tyOf(t.u.info.TypeOf(vs.Names[0])); ok && !strings.HasPrefix(rhs, "(.lit ") {
+							if ety, _ := tyOf(t.u.info.TypeOf(vs.Values[0])); ety != ty {
+								rhs = "(.conv " + ty + " " + rhs + ")"
+							}
+						}
+						set(vs.Names[0].Name, rhs)
+						continue
+					}
+				}
+			}
+		case *ast.IfStmt:
+			if x.Init == nil && x.Else == nil && !mentions(x.Cond, assignedNames(x.Body.List)) {
+				out = append(out, (&tr{t.u, t.st}).withGuard(x.Body.List, and(t.cond(x.Cond)), skip)...)
+				continue
+			}
+		case *ast.SwitchStmt:
+			if r, ok := t.switchStmt(x, guard, skip); ok {
+				out = append(out, r...)
+				continue
+			}
+		}
+		out = append(out, unknown("GoSem.Stmt", s))
+	}
+	return out
+}
+
+func (t *tr) withGuard(list []ast.Stmt, guard string, skip func(ast.Stmt) bool) []string {
+	return t.stmts(list, guard, skip)
+}
+
+// switchStmt handles the two shapes that occur:
+//   switch tag { case c1: …; fallthrough  case c2: …; fallthrough … case cn: … }   (every case but the last
+//       ends in fallthrough, constant labels, tag not assigned inside): the statements of case k run
+//       iff tag ∈ {c1..ck}  →  .setIf (.oneOf tag [c1..ck]) …
+//   switch { case cond1: return e1 … default: return e0 }   →  .retIf cond1 e1 … .ret e0
+func (t *tr) switchStmt(x *ast.SwitchStmt, guard string, skip func(ast.Stmt) bool) ([]string, bool) {
+	if x.Init != nil {
+		return nil, false
+	}
+	var out []string
+	and := func(c string) string {
+		if guard == "" {
+			return c
+		}
+		return "(.and " + guard + " " + c + ")"
+	}
+	if x.Tag == nil {
+		var deflt *ast.CaseClause
+		for _, c := range x.Body.List {
+			cc := c.(*ast.CaseClause)
+			if cc.List == nil {
+				deflt = cc
+				continue
+			}
+			if len(cc.List) != 1 || len(cc.Body) != 1 {
+				return nil, false
+			}
+			rs, ok := cc.Body[0].(*ast.ReturnStmt)
+			if !ok || len(rs.Results) != 1 {
+				return nil, false
+			}
+			out = append(out, ".retIf "+and(t.cond(cc.List[0]))+" "+t.expr(rs.Results[0]))
+		}
+		if deflt != nil {
+			out = append(out, t.stmts(deflt.Body, guard, skip)...)
+		}
+		return out, true
+	}
+	var all []ast.Stmt
+	for _, c := range x.Body.List {
+		all = append(all, c.(*ast.CaseClause).Body...)
+	}
+	if mentions(x.Tag, assignedNames(all)) {
+		return nil, false
+	}
+	var labels []string
+	n := len(x.Body.List)
+	for i, c := range x.Body.List {
+		cc := c.(*ast.CaseClause)
+		if len(cc.List) != 1 {
+			return nil, false
+		}
+		v, ok := constInt(t.u.info.Types[cc.List[0]])
+		if !ok {
+			return nil, false
+		}
+		labels = append(labels, leanInt(v))
+		body := cc.Body
+		if i < n-1 {
+			if len(body) == 0 {
+				return nil, false
+			}
+			bs, ok := body[len(body)-1].(*ast.BranchStmt)
+			if !ok || bs.Tok != token.FALLTHROUGH {
+				return nil, false
+			}
+			body = body[:len(body)-1]
+		}
+		g := and("(.oneOf " + t.expr(x.Tag) + " [" + strings.Join(labels, ", ") + "])")
+		out = append(out, t.stmts(body, g, skip)...)
+	}
+	return out, true
+}
+
+func block(lines []string) string {
+	if len(lines) == 0 {
+		return "[]"
+	}
+	return "[\n    " + strings.Join(lines, ",\n    ") + "]"
+}
+
+// ---------------------------------------------------------------- emitters
+
+type emitter struct{ w strings.Builder }
+
+// the identifier numbers, for the reader (the obligations use `loopVar` / `carried`, not names)
+func (e *emitter) syms(prefix string, st *symtab) {
+	var xs []string
+	for i, n := range st.names {
+		xs = append(xs, fmt.Sprintf("(%s, %d)", leanStr(n), i))
+	}
+	fmt.Fprintf(&e.w, "def %s.names : List (String × Nat) := [%s]\n\n", prefix, strings.Join(xs, ", "))
+}
+
+func paramSyms(fd *ast.FuncDecl, st *symtab, u *unit) []string {
+	var ps []string
+	for _, fl := range fd.Type.Params.List {
+		for _, n := range fl.Names {
+			id := st.id(n.Name) // slices / strings get a number too (used as array names)
+			if ty, ok := tyOf(u.info.TypeOf(n)); ok {
+				ps = append(ps, fmt.Sprintf("(%d, %s)", id, ty))
+			}
+		}
+	}
+	return ps
+}
+
+// whole function as GoSem.Fn
+func (e *emitter) fn(u *unit, name, leanName string) {
+	fd := u.fn(name)
+	if fd == nil || fd.Type.Results == nil || len(fd.Type.Results.List) != 1 {
+		fmt.Fprintf(&e.w, "def %s : GoSem.Fn := { params := [], result := .i64, body := [.unknown 0] }\n\n", leanName)
 		return
 	}
-	slice := fd.Type.Params.List[0].Names[0].Name
-	byteVar := ""
+	st := newSymtab()
+	ps := paramSyms(fd, st, u)
+	rt, ok := tyOf(u.info.TypeOf(fd.Type.Results.List[0].Type))
+	if !ok {
+		rt = ".i64"
+	}
+	t := &tr{u, st}
+	fmt.Fprintf(&e.w, "def %s : GoSem.Fn :=\n  { params := [%s], result := %s, body := %s }\n", leanName, strings.Join(ps, ", "), rt, block(t.stmts(fd.Body.List, "", nil)))
+	e.syms(leanName, st)
+}
+
+func firstFor(fd *ast.FuncDecl) (*ast.ForStmt, int, []ast.Stmt) {
+	list := fd.Body.List
+	// Hash64V2 wraps everything in `if sz := len(bytes); sz == 0 { return 0 } else { … }`
+	if len(list) == 1 {
+		if is, ok := list[0].(*ast.IfStmt); ok && is.Else != nil {
+			if eb, ok := is.Else.(*ast.BlockStmt); ok {
+				list = eb.List
+			}
+		}
+	}
+	for i, s := range list {
+		if fs, ok := s.(*ast.ForStmt); ok {
+			return fs, i, list
+		}
+	}
+	return nil, -1, list
+}
+
+// numberLoopFn fixes the identifier numbers of a loop function independently of the order of its
+// statements: parameters, the loop variable, the variables carried around the loop (assigned in the
+// body, declared outside it) in order of their first assignment in the body, then all others in source order.
+func numberLoopFn(fd *ast.FuncDecl, loop *ast.ForStmt, st *symtab) (loopVar int, carried []int, carriedNames []string) {
+	loopVar = -1
+	if loop == nil {
+		return
+	}
+	if as, ok := loop.Init.(*ast.AssignStmt); ok && len(as.Lhs) == 1 {
+		if id, ok := as.Lhs[0].(*ast.Ident); ok {
+			loopVar = st.id(id.Name)
+		}
+	}
+	seen := map[string]bool{}
+	note := func(name string) {
+		k := st.id(name)
+		if !seen[name] && k != loopVar {
+			seen[name] = true
+			carried = append(carried, k)
+			carriedNames = append(carriedNames, name)
+		}
+	}
+	declaredInside := map[string]bool{}
 	for _, s := range loop.Body.List {
-		if as, ok := s.(*ast.AssignStmt); ok && as.Tok == token.DEFINE && len(as.Lhs) == 1 && len(as.Rhs) == 1 {
-			if ix, ok := as.Rhs[0].(*ast.IndexExpr); ok {
-				if a, ok := ix.X.(*ast.Ident); ok && a.Name == slice {
-					byteVar = as.Lhs[0].(*ast.Ident).Name
+		ast.Inspect(s, func(n ast.Node) bool {
+			if as, ok := n.(*ast.AssignStmt); ok && as.Tok == token.DEFINE {
+				for _, l := range as.Lhs {
+					if id, ok := l.(*ast.Ident); ok {
+						declaredInside[id.Name] = true
+					}
+				}
+			}
+			return true
+		})
+	}
+	for _, s := range loop.Body.List {
+		ast.Inspect(s, func(n ast.Node) bool {
+			switch x := n.(type) {
+			case *ast.AssignStmt:
+				for _, l := range x.Lhs {
+					if id, ok := l.(*ast.Ident); ok && !declaredInside[id.Name] {
+						note(id.Name)
+					}
+				}
+			case *ast.IncDecStmt:
+				if id, ok := x.X.(*ast.Ident); ok && !declaredInside[id.Name] {
+					note(id.Name)
+				}
+			}
+			return true
+		})
+	}
+	return
+}
+
+// a function of the shape  prelude; for …{ body }; after  → three blocks sharing one symbol table
+func (e *emitter) loopFn(u *unit, name, leanName string, wantPre bool) {
+	fd := u.fn(name)
+	if fd == nil {
+		fmt.Fprintf(&e.w, "def %s.body : List GoSem.Stmt := [.unknown 0]\ndef %s.after : List GoSem.Stmt := [.unknown 0]\n\n", leanName, leanName)
+		return
+	}
+	st := newSymtab()
+	paramSyms(fd, st, u)
+	loop, at, list := firstFor(fd)
+	loopVar, carried, carriedNames := numberLoopFn(fd, loop, st)
+	t := &tr{u, st}
+	if loop == nil {
+		fmt.Fprintf(&e.w, "def %s.body : List GoSem.Stmt := [.unknown 0]\ndef %s.after : List GoSem.Stmt := [.unknown 0]\n\n", leanName, leanName)
+		return
+	}
+	{
+		var cs []string
+		for _, c := range carried {
+			cs = append(cs, strconv.Itoa(c))
+		}
+		fmt.Fprintf(&e.w, "def %s.loopVar : Int := %d\ndef %s.carried : List Nat := [%s]\n", leanName, loopVar, leanName, strings.Join(cs, ", "))
+		// constant initial value of the first carried variable (the register), if it has one
+		if len(carriedNames) > 0 {
+			v, ok := u.localConst(fd, carriedNames[0])
+			e.optConst(leanName+".init", v, ok, "Int")
+		}
+	}
+	// the loop header as text (compared literally by the obligations; its meaning is `GoSem.forLoop`)
+	lenAlias := map[string]string{} // `sz := len(bytes)` ↦ sz is len(#0)
+	ast.Inspect(fd.Body, func(n ast.Node) bool {
+		if as, ok := n.(*ast.AssignStmt); ok && as.Tok == token.DEFINE && len(as.Lhs) == 1 && len(as.Rhs) == 1 && isLenCall(as.Rhs[0]) {
+			if id, ok := as.Lhs[0].(*ast.Ident); ok {
+				var b strings.Builder
+				printer.Fprint(&b, fset, as.Rhs[0])
+				lenAlias[id.Name] = b.String()
+			}
+		}
+		return true
+	})
+	identRe := regexp.MustCompile(`[A-Za-z_][A-Za-z_0-9]*`)
+	var subst func(txt string, depth int) string
+	subst = func(txt string, depth int) string {
+		return identRe.ReplaceAllStringFunc(txt, func(w string) string {
+			if a, ok := lenAlias[w]; ok && depth == 0 {
+				return subst(a, 1)
+			}
+			if _, ok := st.ids[w]; ok {
+				return fmt.Sprintf("#%d", st.ids[w])
+			}
+			return w // builtins and type names
+		})
+	}
+	hdr := func(n ast.Node) string {
+		if n == nil {
+			return ""
+		}
+		var b strings.Builder
+		printer.Fprint(&b, fset, n)
+		return subst(b.String(), 0)
+	}
+
+	if wantPre {
+		fmt.Fprintf(&e.w, "def %s.pre : List GoSem.Stmt := %s\n", leanName, block(t.stmts(list[:at], "", nil)))
+	}
+	if loop.Cond != nil {
+		// the loop condition is emitted when it compares integers (to_str); index loops `i < sz` are
+		// supplied by the obligations
+		if be, ok := loop.Cond.(*ast.BinaryExpr); ok {
+			if _, ok := be.Y.(*ast.Ident); !ok {
+				if _, isCall := be.Y.(*ast.CallExpr); !isCall {
+					fmt.Fprintf(&e.w, "def %s.cond : GoSem.Cond := %s\n", leanName, t.cond(loop.Cond))
 				}
 			}
 		}
 	}
-	fmt.Fprintf(w, "%s\n", stmts(loop.Body.List, slice))
-	fmt.Fprintf(w, "def loop_%s_byteVar : Nat := %s\n", name, sym(byteVar))
-	// the register: the variable declared just before the loop with an unsigned type conversion, i.e.
-	// the one assigned in the loop and returned; we take the first assigned name that is not declared inside
-	declared := map[string]bool{byteVar: true}
-	reg := ""
-	for _, s := range loop.Body.List {
-		if as, ok := s.(*ast.AssignStmt); ok && len(as.Lhs) == 1 {
-			id, _ := as.Lhs[0].(*ast.Ident)
-			if id == nil {
-				continue
-			}
-			if as.Tok == token.DEFINE {
-				declared[id.Name] = true
-			} else if !declared[id.Name] && reg == "" {
-				reg = id.Name
-			}
-		}
-	}
-	fmt.Fprintf(w, "def loop_%s_register : Nat := %s\n\n", name, sym(reg))
+	fmt.Fprintf(&e.w, "def %s.body : List GoSem.Stmt := %s\n", leanName, block(t.stmts(loop.Body.List, "", nil)))
+	fmt.Fprintf(&e.w, "def %s.after : List GoSem.Stmt := %s\n", leanName, block(t.stmts(list[at+1:], "", nil)))
+	fmt.Fprintf(&e.w, "def %s.header : List String := [%s, %s, %s]\n", leanName, leanStr(hdr(loop.Init)), leanStr(hdr(loop.Cond)), leanStr(hdr(loop.Post)))
+	e.syms(leanName, st)
 }
+
+// ---------------------------------------------------------------- constants and tables
 
 func intList(vals []*big.Int, per int) string {
 	var rows []string
@@ -301,9 +773,9 @@ func intList(vals []*big.Int, per int) string {
 	return "[\n" + strings.Join(rows, ",\n") + "]"
 }
 
-// composite literal of integer / char literals assigned to a package-level var
-func pkgVarLits(f *ast.File, name string) ([]*big.Int, bool) {
-	for _, d := range f.Decls {
+func (u *unit) pkgVarLits(name string) []*big.Int {
+	var out []*big.Int
+	for _, d := range u.file.Decls {
 		gd, ok := d.(*ast.GenDecl)
 		if !ok || gd.Tok != token.VAR {
 			continue
@@ -316,40 +788,30 @@ func pkgVarLits(f *ast.File, name string) ([]*big.Int, bool) {
 				}
 				cl, ok := vs.Values[i].(*ast.CompositeLit)
 				if !ok {
-					return nil, false
+					return nil
 				}
-				var out []*big.Int
 				for _, el := range cl.Elts {
-					bl, ok := el.(*ast.BasicLit)
+					v, ok := constInt(u.info.Types[el])
 					if !ok {
-						return nil, false
-					}
-					v, ok := litValue(bl)
-					if !ok {
-						return nil, false
+						return nil
 					}
 					out = append(out, v)
 				}
-				return out, true
+				return out
 			}
 		}
 	}
-	return nil, false
+	return nil
 }
 
-func pkgConst(f *ast.File, name string) (*big.Int, bool) {
-	for _, d := range f.Decls {
-		gd, ok := d.(*ast.GenDecl)
-		if !ok || gd.Tok != token.CONST {
-			continue
-		}
-		for _, sp := range gd.Specs {
-			vs := sp.(*ast.ValueSpec)
-			for i, n := range vs.Names {
-				if n.Name == name && i < len(vs.Values) {
-					if bl, ok := vs.Values[i].(*ast.BasicLit); ok {
-						return litValue(bl)
-					}
+func (u *unit) pkgConst(name string) (*big.Int, bool) {
+	for id, obj := range u.info.Defs {
+		if id.Name == name {
+			if c, ok := obj.(*types.Const); ok {
+				v := constant.ToInt(c.Val())
+				if v.Kind() == constant.Int {
+					b, ok := new(big.Int).SetString(v.ExactString(), 10)
+					return b, ok
 				}
 			}
 		}
@@ -357,91 +819,14 @@ func pkgConst(f *ast.File, name string) (*big.Int, bool) {
 	return nil, false
 }
 
-// constant integer expression with + - * / (truncated) unary -, literals, math.MaxInt64, conversions, named locals
-func constEval(e ast.Expr, env map[string]*big.Int) (*big.Int, bool) {
-	switch x := e.(type) {
-	case *ast.ParenExpr:
-		return constEval(x.X, env)
-	case *ast.BasicLit:
-		return litValue(x)
-	case *ast.Ident:
-		v, ok := env[x.Name]
-		return v, ok
-	case *ast.SelectorExpr:
-		if p, ok := x.X.(*ast.Ident); ok && p.Name == "math" {
-			if v, ok := mathConsts[x.Sel.Name]; ok {
-				b, _ := new(big.Int).SetString(v, 10)
-				return b, true
-			}
-		}
-	case *ast.UnaryExpr:
-		if v, ok := constEval(x.X, env); ok && x.Op == token.SUB {
-			return new(big.Int).Neg(v), true
-		}
-	case *ast.CallExpr:
-		if len(x.Args) == 1 {
-			if _, ok := tyOf(x.Fun); ok {
-				return constEval(x.Args[0], env)
-			}
-		}
-	case *ast.BinaryExpr:
-		a, ok1 := constEval(x.X, env)
-		b, ok2 := constEval(x.Y, env)
-		if ok1 && ok2 {
-			switch x.Op {
-			case token.ADD:
-				return new(big.Int).Add(a, b), true
-			case token.SUB:
-				return new(big.Int).Sub(a, b), true
-			case token.MUL:
-				return new(big.Int).Mul(a, b), true
-			case token.QUO:
-				if b.Sign() != 0 {
-					return new(big.Int).Quo(a, b), true // truncated, like Go
-				}
-			}
-		}
+func (e *emitter) optConst(name string, v *big.Int, ok bool, ty string) {
+	if !ok || v == nil {
+		fmt.Fprintf(&e.w, "def %s : Option %s := none\n", name, ty)
+		return
 	}
-	return nil, false
+	fmt.Fprintf(&e.w, "def %s : Option %s := some %s\n", name, ty, leanInt(v))
 }
 
-// local `name := expr` / `var name T = expr` inside a function, evaluated as constants in order
-func localConsts(fd *ast.FuncDecl) map[string]*big.Int {
-	env := map[string]*big.Int{}
-	if fd == nil {
-		return env
-	}
-	ast.Inspect(fd.Body, func(n ast.Node) bool {
-		switch x := n.(type) {
-		case *ast.FuncLit:
-			return false
-		case *ast.AssignStmt:
-			if x.Tok == token.DEFINE && len(x.Lhs) == 1 && len(x.Rhs) == 1 {
-				if id, ok := x.Lhs[0].(*ast.Ident); ok {
-					if _, seen := env[id.Name]; !seen {
-						if v, ok := constEval(x.Rhs[0], env); ok {
-							env[id.Name] = v
-						}
-					}
-				}
-			}
-		case *ast.ValueSpec:
-			for i, nm := range x.Names {
-				if i < len(x.Values) {
-					if _, seen := env[nm.Name]; !seen {
-						if v, ok := constEval(x.Values[i], env); ok {
-							env[nm.Name] = v
-						}
-					}
-				}
-			}
-		}
-		return true
-	})
-	return env
-}
-
-// string literals returned / compared inside a function
 func stringLits(fd *ast.FuncDecl) []string {
 	var out []string
 	if fd == nil {
@@ -458,117 +843,6 @@ func stringLits(fd *ast.FuncDecl) []string {
 	return out
 }
 
-// the literal multiplier of `name *= <lit>` inside a function
-func mulAssignLit(fd *ast.FuncDecl, name string) (*big.Int, bool) {
-	var res *big.Int
-	if fd == nil {
-		return nil, false
-	}
-	ast.Inspect(fd.Body, func(n ast.Node) bool {
-		if as, ok := n.(*ast.AssignStmt); ok && as.Tok == token.MUL_ASSIGN && len(as.Lhs) == 1 {
-			if id, ok := as.Lhs[0].(*ast.Ident); ok && id.Name == name {
-				if v, ok := constEval(as.Rhs[0], nil); ok && res == nil {
-					res = v
-				}
-			}
-		}
-		return true
-	})
-	return res, res != nil
-}
-
-func emitConst(w *strings.Builder, name string, v *big.Int, ok bool, ty string) {
-	if !ok {
-		// an absent fact must break the obligation that mentions it
-		fmt.Fprintf(w, "def %s : Option %s := none\n", name, ty)
-		return
-	}
-	fmt.Fprintf(w, "def %s : Option %s := some %s\n", name, ty, leanInt(v))
-}
-
-func main() {
-	repo := flag.String("repo", "/repo", "repository root")
-	out := flag.String("out", "", "output Lean file")
-	flag.Parse()
-	var w strings.Builder
-	w.WriteString("/- generated by xlate/c15 from the Go source (util/hash, util/hexa32, util/hll, util/bitutil) — do not edit -/\nimport Golib.Hash.GoExpr\n\nnamespace Gen.C15\n\n")
-
-	// ---- util/hash
-	hf := parse(*repo, "util/hash/HashUtil.go")
-	tab, ok := pkgVarLits(hf, "table")
-	if !ok {
-		tab = nil
-	}
-	fmt.Fprintf(&w, "/-- `var table` of util/hash/HashUtil.go -/\ndef crcTable : List Nat := %s\n\n", intList(tab, 8))
-	for _, fn := range []string{"Hash", "Hash64", "Hash64v2", "Hash64V2"} {
-		emitLoop(&w, hf, fn)
-	}
-	for _, fn := range []string{"Hash", "Hash64", "Hash64v2", "Hash64V2"} {
-		env := localConsts(findFunc(hf, fn))
-		v, ok := env[regName(hf, fn)]
-		emitConst(&w, "init_"+fn, v, ok, "Int")
-	}
-	w.WriteString("\n")
-
-	// ---- util/hexa32
-	xf := parse(*repo, "util/hexa32/Hexa32.go")
-	dg, _ := pkgVarLits(xf, "digits")
-	fmt.Fprintf(&w, "/-- `var digits` of util/hexa32/Hexa32.go (byte values) -/\ndef digits : List Nat := %s\n\n", intList(dg, 12))
-	p, ok := pkgConst(xf, "PLUS")
-	emitConst(&w, "plusChar", p, ok, "Nat")
-	m, ok := pkgConst(xf, "MINUS")
-	emitConst(&w, "minusChar", m, ok, "Nat")
-	tl := localConsts(findFunc(xf, "to_long"))
-	emitConst(&w, "toLongLimit", tl["limit"], tl["limit"] != nil, "Int")
-	emitConst(&w, "toLongMultmin", tl["multmin"], tl["multmin"] != nil, "Int")
-	mul, ok := mulAssignLit(findFunc(xf, "to_long"), "result")
-	emitConst(&w, "toLongRadix", mul, ok, "Int")
-	ts := localConsts(findFunc(xf, "to_str"))
-	emitConst(&w, "toStrRadix", ts["radix"], ts["radix"] != nil, "Int")
-	fmt.Fprintf(&w, "def toString32Texts : List String := [%s]\n", quoteAll(stringLits(findFunc(xf, "ToString32"))))
-	fmt.Fprintf(&w, "def toLong32Texts : List String := [%s]\n\n", quoteAll(stringLits(findFunc(xf, "ToLong32"))))
-
-	// ---- util/hll murmur constants
-	mf := parse(*repo, "util/hll/MurmurHash.go")
-	for _, fn := range []string{"murmurHash", "MurmurHashLong", "murmurHashLong"} {
-		env := localConsts(findFunc(mf, fn))
-		emitConst(&w, "murmur_"+fn+"_m", env["m"], env["m"] != nil, "Nat")
-		emitConst(&w, "murmur_"+fn+"_r", env["r"], env["r"] != nil, "Nat")
-	}
-	for _, fn := range []string{"MurmurHashByte", "MurmurHashLongByte"} {
-		var seed *big.Int
-		if fd := findFunc(mf, fn); fd != nil {
-			ast.Inspect(fd.Body, func(n ast.Node) bool {
-				if c, ok := n.(*ast.CallExpr); ok && len(c.Args) == 3 && seed == nil {
-					if v, ok := constEval(c.Args[2], nil); ok {
-						seed = v
-					}
-				}
-				return true
-			})
-		}
-		emitConst(&w, "murmur_"+fn+"_seed", seed, seed != nil, "Nat")
-	}
-	w.WriteString("\n")
-
-	// ---- util/bitutil
-	bf := parse(*repo, "util/bitutil/BitUtil.go")
-	for _, fn := range []string{"Composite64", "Composite32", "Composite16", "SetHigh64", "SetLow64",
-		"GetHigh64", "GetLow64", "GetHigh32", "GetLow32", "GetHigh16", "GetLow16"} {
-		emitFn(&w, bf, fn)
-	}
-	fmt.Fprintf(&w, "/-- number of the identifier `table` -/\ndef sym_table : Nat := %s\n\n", sym("table"))
-	w.WriteString("-- identifier numbers:")
-	for i, n := range symNames {
-		fmt.Fprintf(&w, " %d=%s", i, n)
-	}
-	w.WriteString("\nend Gen.C15\n")
-	if err := os.WriteFile(*out, []byte(w.String()), 0o644); err != nil {
-		fmt.Fprintln(os.Stderr, "xlate/c15:", err)
-		os.Exit(1)
-	}
-}
-
 func quoteAll(xs []string) string {
 	q := make([]string, len(xs))
 	for i, s := range xs {
@@ -577,35 +851,381 @@ func quoteAll(xs []string) string {
 	return strings.Join(q, ", ")
 }
 
-// regName: the loop register of a hash function (same rule as emitLoop)
-func regName(f *ast.File, name string) string {
-	fd := findFunc(f, name)
+// value of the first declaration `name := <const>` / `var name T = <const>` in a function
+func (u *unit) localConst(fd *ast.FuncDecl, name string) (*big.Int, bool) {
+	var res *big.Int
 	if fd == nil {
-		return ""
+		return nil, false
 	}
-	var loop *ast.ForStmt
 	ast.Inspect(fd.Body, func(n ast.Node) bool {
-		if fs, ok := n.(*ast.ForStmt); ok && loop == nil {
-			loop = fs
+		if res != nil {
+			return false
 		}
-		return loop == nil
+		switch x := n.(type) {
+		case *ast.AssignStmt:
+			if x.Tok == token.DEFINE && len(x.Lhs) == 1 && len(x.Rhs) == 1 {
+				if id, ok := x.Lhs[0].(*ast.Ident); ok && id.Name == name {
+					if v, ok := constInt(u.info.Types[x.Rhs[0]]); ok {
+						res = v
+					}
+				}
+			}
+		case *ast.ValueSpec:
+			for i, nm := range x.Names {
+				if nm.Name == name && i < len(x.Values) {
+					if v, ok := constInt(u.info.Types[x.Values[i]]); ok {
+						res = v
+					}
+				}
+			}
+		}
+		return true
 	})
-	if loop == nil {
-		return ""
-	}
-	declared := map[string]bool{}
-	for _, s := range loop.Body.List {
-		if as, ok := s.(*ast.AssignStmt); ok && len(as.Lhs) == 1 {
-			id, _ := as.Lhs[0].(*ast.Ident)
-			if id == nil {
-				continue
-			}
-			if as.Tok == token.DEFINE {
-				declared[id.Name] = true
-			} else if !declared[id.Name] {
-				return id.Name
+	return res, res != nil
+}
+
+// `return F([]byte(s))`-style wrappers: the callee and, if present, the guard `if s == "" { return c }`
+func (e *emitter) wrapper(u *unit, name string) {
+	fd := u.fn(name)
+	callee, guard := "", (*big.Int)(nil)
+	if fd != nil {
+		for _, s := range fd.Body.List {
+			switch x := s.(type) {
+			case *ast.ReturnStmt:
+				if len(x.Results) == 1 {
+					if c, ok := x.Results[0].(*ast.CallExpr); ok && len(c.Args) == 1 {
+						if id, ok := c.Fun.(*ast.Ident); ok {
+							// the argument must be []byte(<the parameter>)
+							if conv, ok := c.Args[0].(*ast.CallExpr); ok && len(conv.Args) == 1 {
+								if at, ok := conv.Fun.(*ast.ArrayType); ok && at.Len == nil {
+									if el, ok := at.Elt.(*ast.Ident); ok && el.Name == "byte" {
+										if p, ok := conv.Args[0].(*ast.Ident); ok && len(fd.Type.Params.List) == 1 && p.Name == fd.Type.Params.List[0].Names[0].Name {
+											callee = id.Name
+										}
+									}
+								}
+							}
+						}
+					}
+				}
+			case *ast.IfStmt:
+				if be, ok := x.Cond.(*ast.BinaryExpr); ok && be.Op == token.EQL && x.Else == nil && len(x.Body.List) == 1 {
+					if bl, ok := be.Y.(*ast.BasicLit); ok && bl.Value == `""` {
+						if rs, ok := x.Body.List[0].(*ast.ReturnStmt); ok && len(rs.Results) == 1 {
+							if v, ok := constInt(u.info.Types[rs.Results[0]]); ok {
+								guard = v
+							}
+						}
+					}
+				}
 			}
 		}
 	}
-	return ""
+	fmt.Fprintf(&e.w, "def wrapper_%s : String × Option Int := (%s, ", name, leanStr(callee))
+	if guard != nil {
+		fmt.Fprintf(&e.w, "some %s)\n", leanInt(guard))
+	} else {
+		e.w.WriteString("none)\n")
+	}
+}
+
+// ---------------------------------------------------------------- iputil shape
+
+func (e *emitter) ipShape(repo string) {
+	f, err := parser.ParseFile(fset, filepath.Join(repo, "util/iputil/IPUtil.go"), nil, 0)
+	if err != nil {
+		die("%v", err)
+	}
+	find := func(name string) *ast.FuncDecl {
+		for _, d := range f.Decls {
+			if fd, ok := d.(*ast.FuncDecl); ok && fd.Name.Name == name {
+				return fd
+			}
+		}
+		return nil
+	}
+	// ToString: the sequence of buffer writes: `strconv.Itoa(int(uint(ip[K])))` ↦ K, a string literal ↦ its text;
+	// and the text returned for an empty slice
+	var pieces []string
+	empty := ""
+	if fd := find("ToString"); fd != nil {
+		for _, s := range fd.Body.List {
+			switch x := s.(type) {
+			case *ast.IfStmt:
+				if len(x.Body.List) == 1 {
+					if rs, ok := x.Body.List[0].(*ast.ReturnStmt); ok && len(rs.Results) == 1 {
+						if bl, ok := rs.Results[0].(*ast.BasicLit); ok {
+							empty, _ = strconv.Unquote(bl.Value)
+						}
+					}
+				}
+			case *ast.ExprStmt:
+				c, ok := x.X.(*ast.CallExpr)
+				if !ok || len(c.Args) != 1 {
+					pieces = append(pieces, ".other")
+					continue
+				}
+				sel, ok := c.Fun.(*ast.SelectorExpr)
+				if !ok || sel.Sel.Name != "WriteString" {
+					pieces = append(pieces, ".other")
+					continue
+				}
+				if bl, ok := c.Args[0].(*ast.BasicLit); ok && bl.Kind == token.STRING {
+					t, _ := strconv.Unquote(bl.Value)
+					pieces = append(pieces, ".text "+leanStr(t))
+					continue
+				}
+				// strconv.Itoa(int(uint(ip[K])))
+				idx := -1
+				if ic, ok := c.Args[0].(*ast.CallExpr); ok {
+					if s2, ok := ic.Fun.(*ast.SelectorExpr); ok && s2.Sel.Name == "Itoa" && len(ic.Args) == 1 {
+						inner := ic.Args[0]
+						for {
+							if cc, ok := inner.(*ast.CallExpr); ok && len(cc.Args) == 1 {
+								if id, ok := cc.Fun.(*ast.Ident); ok && (id.Name == "int" || id.Name == "uint") {
+									inner = cc.Args[0]
+									continue
+								}
+							}
+							break
+						}
+						if ie, ok := inner.(*ast.IndexExpr); ok {
+							if bl, ok := ie.Index.(*ast.BasicLit); ok {
+								idx, _ = strconv.Atoi(bl.Value)
+							}
+						}
+					}
+				}
+				if idx >= 0 {
+					pieces = append(pieces, fmt.Sprintf(".octet %d", idx))
+				} else {
+					pieces = append(pieces, ".other")
+				}
+			}
+		}
+	}
+	fmt.Fprintf(&e.w, "def ipToString_pieces : List GoSem.IpPiece := [%s]\n", strings.Join(pieces, ", "))
+	fmt.Fprintf(&e.w, "def ipToString_empty : String := %s\n", leanStr(empty))
+	// ToBytes: separator of strings.Split, the required count, the loop bound, the mask, the default bytes
+	sep, count, bound, mask := "", -1, -1, int64(-1)
+	var dflt []string
+	if fd := find("ToBytes"); fd != nil {
+		ast.Inspect(fd.Body, func(n ast.Node) bool {
+			switch x := n.(type) {
+			case *ast.CallExpr:
+				if sel, ok := x.Fun.(*ast.SelectorExpr); ok && sel.Sel.Name == "Split" && len(x.Args) == 2 {
+					if bl, ok := x.Args[1].(*ast.BasicLit); ok {
+						sep, _ = strconv.Unquote(bl.Value)
+					}
+				}
+			case *ast.BinaryExpr:
+				if bl, ok := x.Y.(*ast.BasicLit); ok && bl.Kind == token.INT {
+					v, _ := strconv.ParseInt(bl.Value, 0, 64)
+					switch x.Op {
+					case token.NEQ:
+						if isLenCall(x.X) {
+							count = int(v)
+						}
+					case token.LSS:
+						bound = int(v)
+					case token.AND:
+						mask = v
+					}
+				}
+			case *ast.AssignStmt:
+				if len(x.Lhs) == 1 && len(x.Rhs) == 1 {
+					if id, ok := x.Lhs[0].(*ast.Ident); ok && id.Name == "result" {
+						if cl, ok := x.Rhs[0].(*ast.CompositeLit); ok {
+							dflt = nil
+							for _, el := range cl.Elts {
+								if bl, ok := el.(*ast.BasicLit); ok {
+									dflt = append(dflt, bl.Value)
+								}
+							}
+						}
+					}
+				}
+			}
+			return true
+		})
+	}
+	fmt.Fprintf(&e.w, "def ipToBytes_sep : String := %s\ndef ipToBytes_count : Int := %d\ndef ipToBytes_bound : Int := %d\ndef ipToBytes_mask : Int := %d\ndef ipToBytes_default : List Nat := [%s]\n\n",
+		leanStr(sep), count, bound, mask, strings.Join(dflt, ", "))
+}
+
+// ---------------------------------------------------------------- main
+
+func main() {
+	repo := flag.String("repo", "/repo", "repository root")
+	out := flag.String("out", "", "output Lean file")
+	ns := flag.String("ns", "Gen.C15", "Lean namespace of the output")
+	flag.Parse()
+	e := &emitter{}
+	e.w.WriteString("/- generated by xlate/c15 from the Go source (util/hash, util/hexa32, util/hll, util/bitutil, util/iputil, util/stringutil) — do not edit -/\nimport Golib.Hash.GoSem\n\nnamespace " + *ns + "\n\n")
+
+	// ---- util/hash
+	hu := load(*repo, "util/hash/HashUtil.go", nil)
+	fmt.Fprintf(&e.w, "/-- `var table` of util/hash/HashUtil.go -/\ndef crcTable : List Nat := %s\n\n", intList(hu.pkgVarLits("table"), 8))
+	for _, fn := range []string{"Hash", "Hash64", "Hash64v2", "Hash64V2"} {
+		e.loopFn(hu, fn, "loop_"+fn, false)
+	}
+	e.fn(hu, "ToInt", "fn_ToInt")
+	e.fn(hu, "ToLong", "fn_ToLong")
+	for _, fn := range []string{"HashStr", "Hash64Str", "Hash64StrV2", "GetLongHash"} {
+		e.wrapper(hu, fn)
+	}
+	e.w.WriteString("\n")
+
+	// ---- stringutil.HashCode
+	su := load(*repo, "util/stringutil/StringUtil.go", []string{"HashCode"})
+	e.loopFn(su, "HashCode", "loop_HashCode", true)
+
+	// ---- util/hexa32
+	xu := load(*repo, "util/hexa32/Hexa32.go", nil)
+	fmt.Fprintf(&e.w, "/-- `var digits` of util/hexa32/Hexa32.go (byte values) -/\ndef digits : List Nat := %s\n\n", intList(xu.pkgVarLits("digits"), 12))
+	p, ok := xu.pkgConst("PLUS")
+	e.optConst("plusChar", p, ok, "Nat")
+	m, ok := xu.pkgConst("MINUS")
+	e.optConst("minusChar", m, ok, "Nat")
+	fmt.Fprintf(&e.w, "def toString32Texts : List String := [%s]\n", quoteAll(stringLits(xu.fn("ToString32"))))
+	fmt.Fprintf(&e.w, "def toLong32Texts : List String := [%s]\n\n", quoteAll(stringLits(xu.fn("ToLong32"))))
+	e.toStr(xu)
+	e.toLong(xu)
+
+	// ---- util/hll
+	mu := load(*repo, "util/hll/MurmurHash.go", nil)
+	e.loopFn(mu, "murmurHash", "loop_murmurHash", true)
+	e.loopFn(mu, "murmurHashLong", "loop_murmurHashLong", true)
+	e.fn(mu, "MurmurHashLong", "fn_MurmurHashLong")
+	for _, fn := range []string{"MurmurHashByte", "MurmurHashLongByte"} {
+		var seed *big.Int
+		if fd := mu.fn(fn); fd != nil {
+			ast.Inspect(fd.Body, func(n ast.Node) bool {
+				if c, ok := n.(*ast.CallExpr); ok && len(c.Args) == 3 && seed == nil {
+					if v, ok := constInt(mu.info.Types[c.Args[2]]); ok {
+						seed = v
+					}
+				}
+				return true
+			})
+		}
+		e.optConst("murmur_"+fn+"_seed", seed, seed != nil, "Nat")
+	}
+	e.w.WriteString("\n")
+
+	// ---- util/bitutil
+	bu := load(*repo, "util/bitutil/BitUtil.go", nil)
+	for _, fn := range []string{"Composite64", "Composite32", "Composite16", "SetHigh64", "SetLow64",
+		"GetHigh64", "GetLow64", "GetHigh32", "GetLow32", "GetHigh16", "GetLow16"} {
+		e.fn(bu, fn, "fn_"+fn)
+	}
+
+	// ---- util/iputil
+	e.ipShape(*repo)
+
+	fmt.Fprintf(&e.w, "def unknownCount : Nat := %d\n\nend %s\n", unknownCount, *ns)
+	if err := os.WriteFile(*out, []byte(e.w.String()), 0o644); err != nil {
+		die("%v", err)
+	}
+	_ = sort.Strings
+}
+
+// to_str: `for i = -i; i <= (-radix); i = i / radix { buf[charPos] = digits[…]; charPos-- }  buf[charPos] = digits[int(-i)]`
+func (e *emitter) toStr(u *unit) {
+	fd := u.fn("to_str")
+	name := "loop_to_str"
+	if fd == nil {
+		fmt.Fprintf(&e.w, "def %s.body : List GoSem.Stmt := [.unknown 0]\n\n", name)
+		return
+	}
+	st := newSymtab()
+	paramSyms(fd, st, u)
+	t := &tr{u, st}
+	loop, at, list := firstFor(fd)
+	_, _, _ = numberLoopFn(fd, loop, st)
+	if loop == nil || loop.Init == nil || loop.Post == nil || loop.Cond == nil {
+		fmt.Fprintf(&e.w, "def %s.body : List GoSem.Stmt := [.unknown 0]\n\n", name)
+		return
+	}
+	skipMake := func(s ast.Stmt) bool { // `buf := make([]byte, 65)`: the buffer itself is not arithmetic
+		if as, ok := s.(*ast.AssignStmt); ok && len(as.Rhs) == 1 {
+			if c, ok := as.Rhs[0].(*ast.CallExpr); ok {
+				if id, ok := c.Fun.(*ast.Ident); ok && id.Name == "make" {
+					return true
+				}
+			}
+		}
+		_, isRet := s.(*ast.ReturnStmt) // `return string(buf[charPos:65])`
+		return isRet
+	}
+	fmt.Fprintf(&e.w, "def %s.pre : List GoSem.Stmt := %s\n", name, block(t.stmts(list[:at], "", skipMake)))
+	fmt.Fprintf(&e.w, "def %s.init : List GoSem.Stmt := %s\n", name, block(t.stmts([]ast.Stmt{loop.Init}, "", nil)))
+	fmt.Fprintf(&e.w, "def %s.cond : GoSem.Cond := %s\n", name, t.cond(loop.Cond))
+	fmt.Fprintf(&e.w, "def %s.post : List GoSem.Stmt := %s\n", name, block(t.stmts([]ast.Stmt{loop.Post}, "", nil)))
+	fmt.Fprintf(&e.w, "def %s.body : List GoSem.Stmt := %s\n", name, block(t.stmts(loop.Body.List, "", nil)))
+	fmt.Fprintf(&e.w, "def %s.after : List GoSem.Stmt := %s\n", name, block(t.stmts(list[at+1:], "", skipMake)))
+	e.syms(name, st)
+}
+
+// to_long: prelude (result, limit, multmin), findc closure, loop body (digit := findc(…) left out: digit is an input),
+// final `return -result`
+func (e *emitter) toLong(u *unit) {
+	fd := u.fn("to_long")
+	name := "loop_to_long"
+	if fd == nil {
+		fmt.Fprintf(&e.w, "def %s.body : List GoSem.Stmt := [.unknown 0]\n\n", name)
+		return
+	}
+	st := newSymtab()
+	paramSyms(fd, st, u)
+	t := &tr{u, st}
+	loop, at, list := firstFor(fd)
+	_, _, _ = numberLoopFn(fd, loop, st)
+	if loop == nil {
+		fmt.Fprintf(&e.w, "def %s.body : List GoSem.Stmt := [.unknown 0]\n\n", name)
+		return
+	}
+	var findc *ast.FuncLit
+	findcName := ""
+	skipPre := func(s ast.Stmt) bool {
+		if as, ok := s.(*ast.AssignStmt); ok && len(as.Rhs) == 1 {
+			if fl, ok := as.Rhs[0].(*ast.FuncLit); ok {
+				findc = fl
+				if id, ok := as.Lhs[0].(*ast.Ident); ok {
+					findcName = id.Name
+				}
+				return true
+			}
+		}
+		return false
+	}
+	fmt.Fprintf(&e.w, "def %s.pre : List GoSem.Stmt := %s\n", name, block(t.stmts(list[:at], "", skipPre)))
+	skipDigit := func(s ast.Stmt) bool { // `digit := findc(int(s[i]))`
+		if as, ok := s.(*ast.AssignStmt); ok && len(as.Rhs) == 1 {
+			if c, ok := as.Rhs[0].(*ast.CallExpr); ok {
+				if id, ok := c.Fun.(*ast.Ident); ok && id.Name == findcName && findcName != "" {
+					st.id(as.Lhs[0].(*ast.Ident).Name)
+					return true
+				}
+			}
+		}
+		return false
+	}
+	fmt.Fprintf(&e.w, "def %s.body : List GoSem.Stmt := %s\n", name, block(t.stmts(loop.Body.List, "", skipDigit)))
+	fmt.Fprintf(&e.w, "def %s.after : List GoSem.Stmt := %s\n", name, block(t.stmts(list[at+1:], "", nil)))
+	e.syms(name, st)
+	// the closure
+	if findc != nil && findc.Type.Results != nil && len(findc.Type.Params.List) == 1 {
+		fst := newSymtab()
+		var ps []string
+		for _, n := range findc.Type.Params.List[0].Names {
+			if ty, ok := tyOf(u.info.TypeOf(n)); ok {
+				ps = append(ps, fmt.Sprintf("(%d, %s)", fst.id(n.Name), ty))
+			}
+		}
+		ft := &tr{u, fst}
+		fmt.Fprintf(&e.w, "def fn_findc : GoSem.Fn :=\n  { params := [%s], result := .i64, body := %s }\n\n", strings.Join(ps, ", "), block(ft.stmts(findc.Body.List, "", nil)))
+	} else {
+		fmt.Fprintf(&e.w, "def fn_findc : GoSem.Fn := { params := [], result := .i64, body := [.unknown 0] }\n\n")
+	}
 }
